@@ -2,6 +2,7 @@ package main
 
 import (
 	"fmt"
+	"os"
 	"runtime"
 	"time"
 
@@ -105,7 +106,7 @@ type ambient struct {
 	rng       *Rng
 	cur       *Task // child holding the baton, nil = the harness goroutine
 	base      func(site int)
-	killing   bool
+	abortMain *abortUnit // a capped call ran out of budget while a child was running
 	quiescing bool
 	qsteps    int
 	spin      int
@@ -158,10 +159,20 @@ func ambSetLane(lane string) {
 
 var ambDaemon bool
 
-// ambReset is called at the start of every run: children left over from the
-// previous run are unwound, the PRNG restarts from the scenario's seed.
+// ambReset is called at the start of every run. Children left over from the
+// previous run come to rest first (ambRetire); what is still alive afterwards
+// waits for somebody and stays - a worker that the code under test started
+// lazily and keeps in a package-level variable lives as long as the process,
+// exactly like one started by init(). Then the side tables forget what nobody
+// waits on, and the PRNG restarts from the scenario's seed.
 func ambReset(seed uint64) {
 	indexReg = indexReg[:0]
+	if amb.on {
+		ambRetire()
+	}
+	if os.Getenv("SLIMSIM_AMBDBG") != "" && len(amb.kids) > 0 {
+		fmt.Fprintf(os.Stderr, "AMBDBG reset: kids=%d before: %s\n", len(amb.kids), xsimrt.DebugChans())
+	}
 	xsimrt.ResetOnceTable()
 	xsimrt.ResetWGTable()
 	xsimrt.ResetChanTable()
@@ -169,8 +180,6 @@ func ambReset(seed uint64) {
 	if !amb.on {
 		return
 	}
-	ambKillMortal()
-	ambQuiesce()
 	amb.rng = NewRng(seed ^ 0xa3b1e47)
 	// 0 = children are held back until the harness goroutine blocks on them or
 	// a Sim adopts them (a background goroutine that outlives the call which
@@ -180,6 +189,7 @@ func ambReset(seed uint64) {
 	amb.spawned, amb.switches, amb.steps, amb.hash = 0, 0, 0, 0
 	amb.spin, amb.rrNext = 0, 0
 	amb.panics, amb.lastPan = 0, ""
+	amb.abortMain = nil
 	ambRefreshHook()
 }
 
@@ -187,6 +197,7 @@ func ambReset(seed uint64) {
 // scheduler needs every yield while children exist.
 func setHook(f func(site int)) {
 	amb.base = f
+	amb.abortMain = nil
 	ambRefreshHook()
 }
 
@@ -204,16 +215,20 @@ func ambHook(site int) {
 	amb.spin = 0
 	amb.steps++
 	if f := amb.base; f != nil {
-		if amb.cur != nil && amb.cur.daemon {
-			// the hook of a capped call unwinds its caller when the budget is
-			// gone; the caller is the harness goroutine (its next yield), never
-			// a goroutine that lives as long as the process
+		if amb.cur != nil {
+			// The hook of a capped call unwinds its caller when the budget is
+			// gone. The caller is the harness goroutine, never a goroutine of
+			// the code under test (which may live as long as the process): the
+			// unwinding is delivered to the harness goroutine at its next yield
+			// (the hook is sticky) or, if it is blocked, at its next attempt.
 			func() {
 				defer func() {
 					if r := recover(); r != nil {
-						if _, ok := r.(abortUnit); !ok {
+						a, ok := r.(abortUnit)
+						if !ok {
 							panic(r)
 						}
+						amb.abortMain = &a
 					}
 				}()
 				f(site)
@@ -224,18 +239,18 @@ func ambHook(site int) {
 	}
 	if amb.cur != nil {
 		amb.cur.blocked = false
-		if amb.killing && !amb.cur.daemon {
+		if amb.cur.victim {
 			panic(abortUnit{"killed"})
 		}
 		if amb.quiescing {
 			if amb.qsteps++; amb.qsteps > 2_000_000 {
 				amb.qsteps = 0
-				amb.cur.blocked = true // gives up: it does not come to rest
+				amb.cur.blocked, amb.cur.runaway = true, true // it does not come to rest
 				transportPark(amb.cur)
 			}
 			return
 		}
-		if amb.rng.Chance(amb.pYield) {
+		if amb.abortMain != nil || amb.rng.Chance(amb.pYield) {
 			transportPark(amb.cur)
 		}
 		return
@@ -270,9 +285,10 @@ func startDyn(t *Task, body func()) {
 }
 
 func ambGo(body func()) {
-	t := &Task{id: -1, name: "dyn", dyn: true, daemon: ambDaemon, slot: newSlot(), resume: make(chan struct{})}
+	t := &Task{id: -1, name: "dyn", dyn: true, daemon: ambDaemon, initBorn: ambDaemon, slot: newSlot(), resume: make(chan struct{})}
 	amb.kids = append(amb.kids, t)
 	amb.spawned++
+	noteSpawn()
 	startDyn(t, body)
 	if xsimrt.Hook == nil || amb.cur == nil {
 		xsimrt.Hook = ambHook
@@ -308,7 +324,7 @@ func ambRun(t *Task) {
 
 func ambForceSwitch() {
 	if amb.cur != nil {
-		if amb.killing && !amb.cur.daemon {
+		if amb.cur.victim {
 			panic(abortUnit{"killed"})
 		}
 		amb.cur.blocked = true
@@ -316,11 +332,18 @@ func ambForceSwitch() {
 		return
 	}
 	// the harness goroutine cannot continue: some child has to
+	if a := amb.abortMain; a != nil {
+		amb.abortMain = nil
+		panic(*a) // the budget of the call went while a child was running
+	}
 	if xsimrt.ForeignWaits != amb.foreign {
 		// it polls a channel the simulator does not own (a timer): real time
 		// has to pass
 		amb.foreign = xsimrt.ForeignWaits
 		amb.fspin++
+		if amb.fspin == 1 && os.Getenv("SLIMSIM_AMBDBG") != "" {
+			fmt.Fprintf(os.Stderr, "AMBDBG harness goroutine polls a channel the simulator does not own; kids=%d %s\n", len(amb.kids), xsimrt.DebugChans())
+		}
 		if amb.fspin > 200000 {
 			amb.fspin = 0
 			panic(abortUnit{"budget"})
@@ -334,10 +357,6 @@ func ambForceSwitch() {
 	amb.spin++
 	if len(amb.kids) == 0 || amb.spin > 2000*(len(amb.kids)+1) {
 		amb.spin = 0
-		if xsimrt.ForeignWaits != amb.foreign {
-			amb.foreign = xsimrt.ForeignWaits
-			panic(abortUnit{"budget"})
-		}
 		panic(abortUnit{"deadlock"})
 	}
 	amb.rrNext++
@@ -355,7 +374,7 @@ func ambIsolated(f func()) {
 		f()
 		return
 	}
-	rng, p, steps, hash, spawned, switches := *amb.rng, amb.pYield, amb.steps, amb.hash, amb.spawned, amb.switches
+	rng, p, pd, steps, hash, spawned, switches := *amb.rng, amb.pYield, amb.pDrain, amb.steps, amb.hash, amb.spawned, amb.switches
 	base := amb.base
 	var daemons, held []*Task
 	for _, k := range amb.kids {
@@ -367,39 +386,79 @@ func ambIsolated(f func()) {
 	}
 	amb.kids, amb.base = daemons, nil
 	ambQuiesce()
-	amb.rng, amb.pYield = NewRng(0x150c0de), 1.0/32
+	amb.rng, amb.pYield, amb.pDrain = NewRng(0x150c0de), 1.0/32, 0
 	ambRefreshHook()
 	defer func() {
-		ambKillMortal()
-		ambQuiesce()
-		*amb.rng, amb.pYield, amb.steps, amb.hash, amb.spawned, amb.switches = rng, p, steps, hash, spawned, switches
+		ambRetire() // f's own children: to rest, and the ones that wait stay
+		*amb.rng, amb.pYield, amb.pDrain, amb.steps, amb.hash, amb.spawned, amb.switches = rng, p, pd, steps, hash, spawned, switches
 		amb.kids, amb.base = append(amb.kids, held...), base
 		ambRefreshHook()
 	}()
 	f()
 }
 
-// ambKillMortal unwinds every child that was not started by a package
-// initialiser; the daemons stay.
-func ambKillMortal() {
-	var daemons, mortal []*Task
-	for _, k := range amb.kids {
-		if k.daemon {
-			daemons = append(daemons, k)
-		} else {
-			mortal = append(mortal, k)
+// ambRetire ends a run (or a cache fill) as far as the children are concerned.
+// Every child runs until it ends or blocks. What is still alive then waits for
+// somebody: it stays, as a daemon (goroutines that the code under test keeps in
+// package-level state - a lazily started worker - live as long as the process;
+// unwinding one would make every later call wait for ever). Unwound are only
+// the ones that do not come to rest, and the oldest beyond maxSurvivors (left
+// behind by abandoned calls; a bound, so that thousands of runs do not pile up
+// goroutines).
+const maxSurvivors = 8
+
+func ambRetire() {
+	if len(amb.kids) == 0 {
+		return
+	}
+	amb.quiescing = true
+	base := amb.base
+	amb.base = nil
+	for _, k := range append([]*Task{}, amb.kids...) {
+		amb.qsteps = 0
+		// (the flag may be stale: whoever completed the operation the child was
+		// waiting for did not clear it - only an attempt of its own tells)
+		for tries := 0; tries < 100000 && !k.done; tries++ {
+			k.blocked = false
+			ambRun(k)
+			if k.blocked {
+				break
+			}
 		}
 	}
-	if len(mortal) > 0 {
-		amb.killing = true
-		amb.kids = mortal
+	amb.quiescing = false
+	var keep, victims []*Task
+	extra := -maxSurvivors
+	for _, k := range amb.kids {
+		if !k.initBorn && !k.runaway {
+			extra++
+		}
+	}
+	for _, k := range amb.kids { // oldest first
+		switch {
+		case k.runaway:
+			victims = append(victims, k)
+		case !k.initBorn && extra > 0:
+			extra--
+			victims = append(victims, k)
+		default:
+			k.daemon = true
+			keep = append(keep, k)
+		}
+	}
+	if len(victims) > 0 {
+		amb.kids = victims
+		for _, v := range victims {
+			v.victim = true
+		}
 		for tries := 0; len(amb.kids) > 0 && tries < 4000; tries++ {
 			ambRun(amb.kids[0])
 		}
-		amb.killing = false
 		// whatever could not be unwound stays parked for ever
 	}
-	amb.kids = daemons
+	amb.kids = keep
+	amb.base = base
+	ambRefreshHook()
 }
 
 // ambQuiesce lets every daemon run until it blocks (waits for work): the state
@@ -415,8 +474,12 @@ func ambQuiesce() {
 			continue
 		}
 		amb.qsteps = 0
-		for tries := 0; tries < 100000 && !d.done && !d.blocked; tries++ {
+		for tries := 0; tries < 100000 && !d.done; tries++ {
+			d.blocked = false
 			ambRun(d)
+			if d.blocked {
+				break
+			}
 		}
 	}
 	amb.quiescing = false
@@ -437,7 +500,7 @@ func ambSettle() {
 // a load left behind, the one that lets it meet the NEXT content of the
 // instance.
 func ambBetweenCalls() {
-	if !amb.on || len(amb.kids) == 0 || amb.cur != nil || curSim != nil || amb.quiescing || amb.killing {
+	if !amb.on || len(amb.kids) == 0 || amb.cur != nil || curSim != nil || amb.quiescing {
 		return
 	}
 	if amb.pDrain == 0 || !amb.rng.Chance(amb.pDrain) {
@@ -448,11 +511,29 @@ func ambBetweenCalls() {
 	amb.quiescing = true
 	for _, k := range append([]*Task{}, amb.kids...) {
 		amb.qsteps = 0
-		for tries := 0; tries < 100000 && !k.done && !k.blocked; tries++ {
+		// (the flag may be stale: whoever completed the operation the child was
+		// waiting for did not clear it - only an attempt of its own tells)
+		for tries := 0; tries < 100000 && !k.done; tries++ {
+			k.blocked = false
 			ambRun(k)
+			if k.blocked {
+				break
+			}
 		}
 	}
 	amb.quiescing = false
 	amb.base = base
 	ambRefreshHook()
+}
+
+// noteSpawn: the collector is switched off while a run executes (12.5); a run
+// that starts tens of thousands of goroutines needs one now and then (stacks of
+// finished goroutines). By count, so that it happens at the same points in
+// every execution of the run.
+var spawnedTotal int64
+
+func noteSpawn() {
+	if spawnedTotal++; spawnedTotal%20000 == 0 {
+		runtime.GC()
+	}
 }
